@@ -175,8 +175,16 @@ def run_case(ctx, rng, index, casedir):
         out = os.path.join(casedir, f"out{k}.gaf")
         wit = {"cores": cores, "batch": batch, "records": nrec, "plan_kind": kind,
                "plan": {kk: vv for kk, vv in planned.items() if kk != "max_groups"}}
-        run = RR.run_driver(casedir, f"x{k}", ["realign", w.gaf, w.gfa, w.fasta, "-o", out, "-c", str(cores)],
-                            planned, batch, timeout=240)
+        to_stdout = rng.random() < 0.25
+        if to_stdout:
+            # no -o: the records go to standard output (collected by the driver into the same file)
+            sit["stdout_executions"] += 1
+            wit["stdout"] = True
+            if rng.random() < 0.4:
+                planned["stderr_closed"] = True  # started with `2>&-`: sys.stderr is None in parent and workers
+                sit["stdout_executions_with_stderr_closed"] += 1
+        run = RR.run_driver(casedir, f"x{k}", ["realign", w.gaf, w.gfa, w.fasta] + ([] if to_stdout else ["-o", out]) + ["-c", str(cores)],
+                            planned, batch, timeout=240, stdout_file=out if to_stdout else None)
         sit["executions"] += 1
         arrival = analyse(run, expected, out, viol, sit, wit)
         if arrival is not None and -(-nrec // batch) >= 2:
